@@ -1,4 +1,5 @@
-import SgModel.Lemmas.StoreReads
+import SgModel.Lemmas.StoreSpecStepC
+import SgModel.Lemmas.StoreSpecAll
 /-!
 # C06 — graph store read views always agree with the graph that was built
 
@@ -11,24 +12,37 @@ over all ids.  "Relationship `e` exists" is `endpOf s e ≠ (0,0)` (the store's 
 
 Proved at full strength: the adjacency / tier / count core (each existing relationship exactly
 once per direction in frozen+buffer rows, nothing else there; `edge_count`; `all_edges`;
-no dangling relationship; dead ids hold nothing, so a reused id inherits nothing; ids handed
-out are dead).  `_partial`: `edges_between` is proved for the filter formulation
-(`edgesBetweenF`), not for the binary-search code path (`edgesBetween`, which needs the
-sortedness invariant I6/I7); typed neighbours and typed degrees are proved
-(`C06_typed_neighbours_and_degree`); `nodes-by-label` and `edges-by-type` are not proved
-here — they are covered by the specification evaluated on the implementation (`specIndexes`)
-and by model = implementation on the explored cases.
+typed and untyped neighbour reads and degrees; no dangling relationship; dead ids hold nothing,
+so a reused id inherits nothing; ids handed out are dead), the label index (I5,
+`C06_by_label_eq`), the edge-type index (I6: always sound, exact when no stub is pending,
+re-established by `finish_bulk_load`; `C06_by_type_eq`), the sortedness of every frozen row and
+(when no stub is pending) every buffer row (I6b/I7, `C06_rows_sorted`), and `edges_between`
+for the **binary-search code path** (`C06_between`: transcription of Rust's
+`binary_search_by` + walk-back + scan, one search per frozen segment and one in the buffer,
+equals the filter formulation and is exact), and the step relation on the logical graph
+(`C06_refines_step`: for every reachable state and every operation inside the API
+preconditions, `get_node` / `get_edge` after the step are those before it transformed as the
+API contract says — new ids were not in use, a new entity carries exactly what it was given,
+deletes remove exactly the entity and, for a node, exactly its incident relationships, label /
+property writes touch exactly one entity — which is `specStep`, the relation the harness
+evaluates on the implementation's observations).
 
-  -- full statement kept visible (DESIGN §6-C06):
-  -- ∀ ops s t ty, ¬(run ops).stubPending →
-  --   edgesBetween (run ops) s t ty ~ edgesBetweenF (run ops) s t ty           (needs I6, I7)
-  -- ∀ ops l n, n ∈ nodesByLabel (run ops) l ↔ node n exists ∧ l ∈ labels n          (I5)
-  -- ∀ ops ty e, ¬stubPending → (e ∈ edgesByType (run ops) ty ↔ exists e ∧ type e = ty) (I6)
+Together: `C06_model_refines_spec` — the model's observation satisfies the **whole**
+executable specification `specObs` (counts incl. `node_count`, `get_edge`, untyped and typed
+neighbour reads, degrees, `edges_between`, label and type indexes, and the column stores
+mirroring the row properties: `C06_columns_mirror`) in every reachable state, and
+`C06_refines_step` gives the step clause; `C06_model_refines_spec_along` states both as the
+harness evaluates them along a history.  Nothing the harness checks on the implementation is
+left unproved of the model; what remains trusted is the model itself (see props/C06.json).
 -/
 namespace SgModel.Store
 
-/-- The representation invariant (I1-I4, I8, I9 of the design) holds after every history. -/
-theorem C06_invariant (ops : List Op) : Inv (run ops) := inv_run ops
+/-- The representation invariant holds after every history: I1-I4, I8, I9 (`Inv`), the label
+index I5 (`LblInv`), the edge-type index I6 (`TyInv`), sortedness I6b/I7 (`SortInv`), and the
+column stores mirroring the row properties (`ColInv`). -/
+theorem C06_invariant (ops : List Op) :
+    Inv (run ops) ∧ LblInv (run ops) ∧ TyInv (run ops) ∧ SortInv (run ops) ∧ ColInv (run ops) :=
+  ⟨inv_run ops, lblInv_run ops, tyInv_run ops, sortInv_run ops, colInv_run ops⟩
 
 /-- Outgoing neighbours (`for_each_outgoing_neighbor(n, None)`): every existing relationship
 with source `n` exactly once, and nothing else — in particular nothing deleted. -/
@@ -155,9 +169,8 @@ relationships — across compactions, deletions from the frozen tier, and id reu
 theorem C06_edge_count_eq (ops : List Op) :
     edgeCount (run ops) = (allEdges (run ops)).length := edgeCount_eq (inv_run ops)
 
-/-- Relationships between two nodes, filter formulation (`_partial`: the binary-search code
-path `edgesBetween` is tied to this one only by the correspondence run). -/
-theorem C06_between_partial (ops : List Op) (a b : Nat) (ty : Option Nat) (e : Nat) :
+/-- Relationships between two nodes, filter formulation (the specification-level read). -/
+theorem C06_between_filter (ops : List Op) (a b : Nat) (ty : Option Nat) (e : Nat) :
     let s := run ops
     e ∈ edgesBetweenF s a b ty ↔
       (endpOf s e = (a, b) ∧ endpOf s e ≠ (0, 0) ∧ ∀ want, ty = some want → edgeTypeOf s e = some want) := by
@@ -185,6 +198,86 @@ theorem C06_between_partial (ops : List Op) (a b : Nat) (ty : Option Nat) (e : N
       rw [hty'] at this
       simp only [Option.some.injEq] at this
       simp [this]
+
+/-- Every frozen row is sorted by neighbour id, in both directions; every write-buffer row is
+sorted while no edge stub is pending (stub inserts append unsorted; `compact_adjacency` /
+`finish_bulk_load` sort them into a segment). -/
+theorem C06_rows_sorted (ops : List Op) :
+    let s := run ops
+    (∀ seg ∈ s.outT.segs, ∀ n, SortedK (seg.getD n []))
+    ∧ (∀ seg ∈ s.inT.segs, ∀ n, SortedK (seg.getD n []))
+    ∧ (s.stubPending = false → ∀ n, SortedK (s.outT.buf.getD n []) ∧ SortedK (s.inT.buf.getD n [])) := by
+  intro s
+  have h := sortInv_run ops
+  exact ⟨h.out.segs, h.inn.segs, fun hp n => ⟨h.out.buf hp n, h.inn.buf hp n⟩⟩
+
+/-- `edges_between` — the code path: binary search (Rust's `binary_search_by`), walk back to
+the start of the run, scan the run; once per frozen segment and once in the write buffer.
+Whenever no stub is pending it returns exactly the existing relationships from `a` to `b` (of
+the requested type), each once. -/
+theorem C06_between (ops : List Op) (a b : Nat) (ty : Option Nat)
+    (hp : (run ops).stubPending = false) :
+    let s := run ops
+    edgesBetween s a b ty = edgesBetweenF s a b ty
+    ∧ (edgesBetween s a b ty).Nodup
+    ∧ ∀ e, e ∈ edgesBetween s a b ty ↔
+        (endpOf s e = (a, b) ∧ endpOf s e ≠ (0, 0) ∧ ∀ want, ty = some want → edgeTypeOf s e = some want) := by
+  intro s
+  have h := inv_run ops
+  have heq := edgesBetween_eq_filter h (sortInv_run ops) hp a b ty
+  refine ⟨heq, ?_, fun e => ?_⟩
+  · rw [heq]
+    exact List.Nodup.sublist (List.Sublist.map _ List.filter_sublist) (h.out.nodup a)
+  · rw [heq]; exact C06_between_filter ops a b ty e
+
+/-- Nodes by label (`get_nodes_by_label`): exactly the existing nodes carrying the label, each
+once; and the index itself holds exactly those ids (I5). -/
+theorem C06_by_label_eq (ops : List Op) (l : Nat) :
+    let s := run ops
+    (nodesByLabel s l).Nodup
+    ∧ (∀ n, n ∈ nodesByLabel s l ↔ ∃ r, getNode s n = some r ∧ l ∈ r.labels)
+    ∧ (∀ n, n ∈ idxGet s.labelIdx l ↔ ∃ r, getNode s n = some r ∧ l ∈ r.labels) := by
+  intro s
+  have h := lblInv_run ops
+  refine ⟨(h.nodup l).filter _, fun n => ?_, h.exact l⟩
+  show n ∈ (idxGet s.labelIdx l).filter (liveN s) ↔ _
+  rw [List.mem_filter, h.exact l n]
+  constructor
+  · exact fun hh => hh.1
+  · rintro ⟨r, hr, hl⟩
+    exact ⟨⟨r, hr, hl⟩, by simp [liveN, hr]⟩
+
+/-- Relationships by type (`get_edges_by_type`): always only existing relationships of that
+type, each once; exactly all of them whenever no stub is waiting for `finish_bulk_load` (I6) —
+in particular right after `finish_bulk_load`, whatever ids the stubs reused. -/
+theorem C06_by_type_eq (ops : List Op) (ty : Nat) :
+    let s := run ops
+    (edgesByType s ty).Nodup
+    ∧ (∀ e, e ∈ edgesByType s ty → endpOf s e ≠ (0, 0) ∧ edgeTypeOf s e = some ty)
+    ∧ (s.stubPending = false →
+        ∀ e, e ∈ edgesByType s ty ↔ (endpOf s e ≠ (0, 0) ∧ edgeTypeOf s e = some ty)) := by
+  intro s
+  have hI := inv_run ops
+  have h := tyInv_run ops
+  have hmem : ∀ e, e ∈ edgesByType s ty ↔ e ∈ idxGet s.typeIdx ty := by
+    intro e
+    show e ∈ (idxGet s.typeIdx ty).filter _ ↔ _
+    rw [List.mem_filter]
+    constructor
+    · exact fun hh => hh.1
+    · intro hm
+      obtain ⟨t, hg, _⟩ := getEdge_of_live hI.toInvE (h.sound ty e hm).1
+      exact ⟨hm, by rw [hg]; rfl⟩
+  refine ⟨(h.nodup ty).filter _, fun e hm => h.sound ty e ((hmem e).mp hm), fun hp e => ?_⟩
+  rw [hmem]
+  exact ⟨h.sound ty e, fun hh => h.complete hp ty e hh.1 hh.2⟩
+
+/-- `finish_bulk_load` always leaves no stub pending, so after it both reads that depend on
+the bulk-load step are exact. -/
+theorem C06_finish_clears_pending (ops : List Op) :
+    (run (ops ++ [.finish])).stubPending = false := by
+  simp [run, List.foldl_append, step, stepWith, finish]
+
 
 /-- An id that is not in use holds nothing: a dead node id has empty rows in **both** tiers
 (frozen segments included) and an empty column row; a dead relationship id is in no row of
@@ -284,7 +377,7 @@ the implementation's observations — for every history and every probe list tha
 node ids in use: `edge_count` = number of observed relationships (ids distinct), outgoing and
 incoming neighbour reads and edge-list reads list each observed relationship of that node
 exactly once and nothing else, and no observed relationship dangles. -/
-theorem C06_model_refines_spec (ops : List Op) (p : Probe)
+theorem C06_model_refines_spec_core (ops : List Op) (p : Probe)
     (hcover : ∀ n, getNode (run ops) n ≠ none → n ∈ p.ids) :
     specCore p (obs (run ops) p) = true := by
   have h := inv_run ops
@@ -365,6 +458,52 @@ theorem C06_model_refines_spec (ops : List Op) (p : Probe)
         exact List.mem_filterMap.mpr ⟨n, hcover n hn, by simp [hg]⟩
     exact ⟨memNodes _ hends.1, memNodes _ hends.2⟩
 
+/-- The column stores mirror the row properties: `node_columns[n][k]` is node `n`'s property
+`k` if `n` exists and nothing otherwise; `edge_columns[e][k]` likewise for relationships — so a
+column read can never show a value of an earlier owner of the id. -/
+theorem C06_columns_mirror (ops : List Op) (i k : Nat) :
+    let s := run ops
+    colGet s.ncols i k = (getNode s i).bind (fun r => assocGet r.props k)
+    ∧ colGet s.ecols i k = (getEdge s i).bind (fun q => assocGet q.2.2.2 k) :=
+  ⟨(colInv_run ops).ncol i k, (colInv_run ops).ecol i k⟩
+
+/-- **The model satisfies the whole executable specification** that the harness evaluates on
+the implementation's observations (`specObs`: every read view of the `observe_at` list is the
+corresponding function of the logical graph read off `get_node` / `all_edges`) — for every
+history and every duplicate-free probe list covering the node ids in use. -/
+theorem C06_model_refines_spec (ops : List Op) (p : Probe) (hnd : p.ids.Nodup)
+    (hcov : ∀ n, getNode (run ops) n ≠ none → n ∈ p.ids) :
+    specObs p (obs (run ops) p) = true :=
+  specObs_holds (inv_run ops) (lblInv_run ops) (tyInv_run ops) (sortInv_run ops) (colInv_run ops)
+    p hnd hcov (C06_model_refines_spec_core ops p hcov)
+
+/-- **Refinement of the logical graph, step by step.**  For every reachable state, every
+operation inside the API preconditions (`Pre`: `create_edge_stub` only between existing nodes)
+and every probe list covering the node ids in use before and after: the observations before
+and after the step satisfy the step relation `specStep` of the executable specification, with
+the result the model returns.  (Ids are chosen by the store; the relation only demands that a
+new id was not in use.) -/
+theorem C06_refines_step (ops : List Op) (op : Op) (p : Probe)
+    (hcov : ∀ n, getNode (run ops) n ≠ none → n ∈ p.ids)
+    (hcov' : ∀ n, getNode (step (run ops) op).1 n ≠ none → n ∈ p.ids)
+    (hpre : Pre (run ops) op) :
+    specStep (obs (run ops) p) op (step (run ops) op).2 (obs (step (run ops) op).1 p) = true :=
+  specStep_holds (inv_run ops) p op hcov hcov' hpre
+
+/-- Both halves together, as the harness evaluates them along a history: the state clause on
+the observation after the step and the step clause between the two observations. -/
+theorem C06_model_refines_spec_along (ops : List Op) (op : Op) (p : Probe) (hnd : p.ids.Nodup)
+    (hcov : ∀ n, getNode (run ops) n ≠ none → n ∈ p.ids)
+    (hcov' : ∀ n, getNode (run (ops ++ [op])) n ≠ none → n ∈ p.ids)
+    (hpre : Pre (run ops) op) :
+    specObs p (obs (run (ops ++ [op])) p) = true
+    ∧ specStep (obs (run ops) p) op (step (run ops) op).2 (obs (run (ops ++ [op])) p) = true := by
+  have hrun : run (ops ++ [op]) = (step (run ops) op).1 := by
+    simp [run, List.foldl_append]
+  refine ⟨C06_model_refines_spec (ops ++ [op]) p hnd hcov', ?_⟩
+  rw [hrun] at hcov' ⊢
+  exact C06_refines_step ops op p hcov hcov' hpre
+
 /-! ### The pinned tree violated the property (witnesses replayed by `corpus/C06`) -/
 
 def w27 : List Op := [.mkN 0, .mkN 0, .mkE 1 2 0, .compact, .delE 1, .mkE 2 1 0]
@@ -415,8 +554,20 @@ example : edgesBetween (run w2seg) 1 3 none = [1] ∧ edgesBetween (run w2seg) 1
   decide
 
 /-- the probed history has a compaction, a frozen delete and a re-create, and the spec core
-holds on its observation (hypothesis of `C06_model_refines_spec` satisfied by ids 0..3) -/
+holds on its observation (hypotheses of `C06_model_refines_spec` satisfied by ids 0..3) -/
 example : specCore ⟨[0, 1, 2, 3], [0, 1], [0, 1], [0, 1]⟩ (obs (run w27) ⟨[0, 1, 2, 3], [0, 1], [0, 1], [0, 1]⟩)
     = true := by decide
+
+/-- … and so do the whole `specObs` and the step clause for the re-create under the reused id
+(hypotheses of `C06_model_refines_spec` / `C06_refines_step` are satisfiable) -/
+example : specObs ⟨[0, 1, 2, 3], [0, 1], [0, 1], [0, 1]⟩ (obs (run w27) ⟨[0, 1, 2, 3], [0, 1], [0, 1], [0, 1]⟩)
+    = true := by decide
+
+example : specStep (obs (run [.mkN 0, .mkN 0, .mkE 1 2 0, .compact, .delE 1]) ⟨[0, 1, 2, 3], [0, 1], [0, 1], [0, 1]⟩)
+    (.mkE 2 1 0) (step (run [.mkN 0, .mkN 0, .mkE 1 2 0, .compact, .delE 1]) (.mkE 2 1 0)).2
+    (obs (run w27) ⟨[0, 1, 2, 3], [0, 1], [0, 1], [0, 1]⟩) = true := by decide
+
+example : Pre (run [.mkN 0, .mkN 0]) (.mkES 1 2 0) :=
+  show liveN _ 1 = true ∧ liveN _ 2 = true by decide
 
 end SgModel.Store
